@@ -167,4 +167,3 @@ package resp
 //@   replay-import github.com/cloudwego/hertz/pkg/protocol
 //@   replay-import github.com/cloudwego/hertz/pkg/common/test/mock
 //@   replay-go r := protocol.AcquireResponse(); conn := mock.NewConn(""); cw := NewChunkedBodyWriter(r, conn); cw.Write([]byte("abc")); cw.Write([]byte{}); cw.Write([]byte("def")); cw.Finalize(); cw.Flush(); out, _ := conn.WriterRecorder().ReadBinary(conn.WriterRecorder().WroteLen()); got, err := http.ReadResponse(bufio.NewReader(bytes.NewReader(out)), nil); if err != nil { fmt.Printf("VCGO-VIOLATED writes abc, empty, def through the chunked writer give an unreadable response: %v (%q)\n", err, out); return }; body, err := io.ReadAll(got.Body); if string(body) != "abcdef" || err != nil { fmt.Printf("VCGO-VIOLATED writes abc, empty, def through the chunked writer are decoded by net/http as body %q, err %v (wire %q)\n", body, err, out) }
-
